@@ -142,6 +142,12 @@ def bucket_features(case):
         anc = rg.an({it["v"] for it in case["conditions"]})
         if {it["v"] for it in case["outcomes"]} & anc:
             f.add("outcome-is-ancestor-of-condition")
+    from .. import ref_ctf
+
+    if any(ref_ctf.minimize(case["g"], (it["v"], frozenset((n, bool(s)) for n, s in it["do"])))[1] != frozenset((n, bool(s)) for n, s in it["do"]) for it in items):
+        f.add("nonminimal-item")
+    if case["mode"] == "conditional" and {it["v"] for it in case["outcomes"]} & {it["v"] for it in case["conditions"]}:
+        f.add("outcome-and-condition-share-a-variable")
     if any(d["policy"] for d in case["domains"]):
         f.add("has-policy")
     if any(d["T"] for d in case["domains"]):
